@@ -6,7 +6,8 @@ let show_ev = function
   | EvWC -> Some "WC" | EvHWM n -> Some ("HWM:" ^ string_of_int (int_of_nat n))
   | EvGiveUp | EvFin | EvErrorLogged -> None   (* log lines / kernel effects: observed through fin= and wire= *)
 let extra_ev = ref []
-let show status evs (c: conn) =
+let show status evs (x: xconn) =
+  let c = x.xbase in
   let es = List.filter_map show_ev evs @ !extra_ev in
   extra_ev := [];
   Printf.printf "%s ev=%s st=%d out=%d:%s in=%d:%s wr=%d rd=%d reg=%d pend=%d wire=%d:%s fin=%d\n" status
@@ -21,41 +22,42 @@ let parse_k s =
   else Err (match s with "eagain" -> EAGAIN | "eintr" -> EINTR | "epipe" -> EPIPE | "econnreset" -> ECONNRESET | _ -> EOTHER)
 let i s = nat_of_int (int_of_string s)
 let () =
-  let c = ref (init N0 false false) in
+  let c = ref (xinit N0 false false) in
   let dead = ref false in
   (try while true do
     let line = input_line stdin in
     match split_ws line with
     | [] -> ()
     | "case" :: id :: mark :: wc :: hw :: _ ->
-        c := init (n_of_int (int_of_string mark)) (wc = "1") (hw = "1"); dead := false;
+        c := xinit (n_of_int (int_of_string mark)) (wc = "1") (hw = "1"); dead := false;
         Printf.printf "case %s\n" id; flush stdout
     | ["end"] ->
         let dump l = if List.length l <= 16384 then hex_of_bytes l else "crc:" ^ fnv_of_bytes l in
-        Printf.printf "stream=%s inbuf=%s\nend\n" (dump (!c.wire @ !c.outb)) (dump !c.inb); flush stdout
+        Printf.printf "stream=%s inbuf=%s\nend\n" (dump (!c.xbase.wire @ !c.xbase.outb)) (dump !c.xbase.inb); flush stdout
     | w ->
         if !dead then (print_string "skipped\n"; flush stdout) else
         let steps = ref [] in
         (match w with
-         | ["SEND"; d; _; "b"] when !c.st <> Connecting ->
-             extra_ev := ["BufLeft:" ^ string_of_int (if !c.st = Connected then 0 else List.length (bytes_of_spec d))]
+         | ["SEND"; d; _; "b"] when !c.xbase.st <> Connecting ->
+             extra_ev := ["BufLeft:" ^ string_of_int (if !c.xbase.st = Connected then 0 else List.length (bytes_of_spec d))]
          | _ -> ());
         let r = match w with
           | "RUN" :: ks ->
               (* one RunOne per functor present at batch start; a scripted answer is consumed only
                  by a functor that really calls write() *)
-              let n = List.length !c.pending in
+              let n = List.length !c.xbase.pending in
               let ks = ref (List.map parse_k ks) in
               let cur = ref !c and evs = ref [] and res = ref None in
               for _ = 1 to n do
                 if !res = None then begin
-                  match !cur.pending with
+                  match !cur.xbase.pending with
                   | [] -> ()
                   | f :: _ ->
-                    let k = if uses_kernel !cur f then (match !ks with k :: r -> ks := r; k | [] -> AcceptAll) else AcceptAll in
-                    (match step !cur (RunOne k) with
-                     | Ok (c', e) ->
-                        cur := c'; evs := !evs @ e;
+                    let k = if uses_kernel !cur.xbase f then (match !ks with k :: r -> ks := r; k | [] -> AcceptAll) else AcceptAll in
+                    (match xstep !cur (Base (RunOne k)) with
+                     | Ok (x', e) ->
+                        let c' = x'.xbase in
+                        cur := x'; evs := !evs @ e;
                         let es = List.filter_map show_ev e in
                         steps := !steps @ [Printf.sprintf "%s/%d/%d/%d/%d/%d" (if es = [] then "-" else String.concat "," es)
                                    (List.length c'.outb) (b2i c'.writing) (st_code c'.st) (List.length c'.wire) (b2i c'.fin)]
@@ -64,6 +66,9 @@ let () =
                 end
               done;
               (match !res with Some r -> r | None -> Ok (!cur, !evs))
+          | ["XRC"; t; r] -> xstep !c (XCheck (i t, (match r with "shut" -> RShutdown | "fc" -> RForceClose | _ -> RForceCloseDelay)))
+          | ["XRS"; t] -> xstep !c (XSet (i t))
+          | ["XRE"; t] -> xstep !c (XEnq (i t))
           | _ ->
             let o = match w with
               | ["EST"] -> Establish
@@ -86,7 +91,7 @@ let () =
               | ["XSR"] -> XStartRead | ["XSP"] -> XStopRead
               | ["ODESTROY"] -> OwnerDestroy
               | _ -> failwith ("bad op: " ^ line) in
-            step !c o in
+            xstep !c (Base o) in
         (match w with "RUN" :: _ -> Printf.printf "steps=%s " (if !steps = [] then "-" else String.concat ";" !steps) | _ -> ());
         (match r with
          | Ok (c', evs) -> c := c'; show "ok" evs c'
